@@ -207,6 +207,29 @@ Qed.
 Lemma dce_keeps_roots g fuel s : root g s = true -> is_used (S fuel) g [] s = Some (true, []).
 Proof. intros R. rewrite is_used_unfold, R. reflexivity. Qed.
 
+(* ---------- the initializer of an eliminated variable ---------- *)
+Lemma dead_init_atoms : dead_init_cond_atoms = [1%nat; 2%nat; 3%nat; 4%nat].
+Proof. reflexivity. Qed.
+
+Lemma init_always_evaluated nodce used i : needs_eval i = true -> init_evaluated nodce used i = true.
+Proof.
+  unfold needs_eval, init_evaluated, dead_init_emitted. rewrite dead_init_atoms. intros H.
+  apply andb_prop in H. destruct H as (H & H3). apply andb_prop in H. destruct H as (H1 & H2).
+  destruct (nodce || used); [reflexivity|]. destruct (ii_lastcall i) eqn:E; [reflexivity|].
+  cbn [forallb atom_holds]. rewrite H1, H2, H3, E. reflexivity.
+Qed.
+
+Lemma dead_init_any_shape e : dead_init_emitted (info_of e) = true.
+Proof. unfold dead_init_emitted. rewrite dead_init_atoms. reflexivity. Qed.
+
+(* the analyzer's attribute cannot stand in for "has an effect": a field of a marked call's result *)
+Lemma se_attr_incomplete : exists e, effectful e = true /\ attr_se e = false.
+Proof. exists (IField (ICall true [])). split; reflexivity. Qed.
+(* a condition that also asked for the attribute would drop that call *)
+Example attr_condition_drops_call :
+  forallb (fun a => atom_holds a (info_of (IField (ICall true [])))) [1%nat; 2%nat; 5%nat; 3%nat; 4%nat] = false.
+Proof. reflexivity. Qed.
+
 Example ex_is_used : is_used 10 (graph_of [0%nat] [(1%nat, [0%nat]); (2%nat, [1%nat; 3%nat]); (3%nat, [2%nat])]) [] 3 = Some (true, [1%nat; 2%nat; 3%nat]).
 Proof. reflexivity. Qed.
 Example ex_is_used_dead : is_used 10 (graph_of [0%nat] [(2%nat, [3%nat]); (3%nat, [2%nat])]) [] 3 = Some (false, [2%nat; 3%nat]).
